@@ -1085,6 +1085,15 @@ void output_text(FILE *pfile)
                min_col++;
             }
 
+            if (  tmp->IsNotNullChunk()
+               && tmp->Is(CT_STRING)
+               && tmp->GetStr().find("\t") >= 0
+               && pc->GetColumn() >= tmp->GetColumn() + tmp->Len())
+            {
+               // a tab inside the literal took more columns than its one character: keep the gap that was asked for
+               min_col = std::max(min_col, cpd.column + pc->GetColumn() - (tmp->GetColumn() + tmp->Len()));
+            }
+
             if (pc->GetColumn() < min_col)
             {
                reindent_line(pc, min_col);
